@@ -161,6 +161,21 @@ impl TryFrom<RawProof> for NamespaceProof {
 
         if !value.leaf_hash.is_empty() {
             proof.convert_to_absence_proof(NamespacedHash::from_raw(&value.leaf_hash)?);
+        } else if value.nodes.is_empty() && value.start == value.end {
+            // The "empty proof": absence of a namespace that is outside of the root's namespace
+            // range. It has no leaf, so it must not be mistaken for a presence proof.
+            let NmtNamespaceProof::PresenceProof {
+                proof: inner,
+                ignore_max_ns,
+            } = proof
+            else {
+                unreachable!("constructed as presence proof above")
+            };
+            proof = NmtNamespaceProof::AbsenceProof {
+                proof: inner,
+                ignore_max_ns,
+                leaf: None,
+            };
         }
 
         Ok(NamespaceProof(proof))
